@@ -18,7 +18,7 @@ ASSUMPTIONS = ["the responder double (dissononce HandshakeState, initiator=False
                "consonance's random.randint(float, float) is shimmed for CPython 3.12 (third-party incompatibility)",
                "thread interleavings are sampled (yield injection at statement starts + repetition), never exhausted",
                "a hang is decided by a stable blocked state (all handshake workers parked in an untimed wait with every stimulus delivered); a plain timeout is inconclusive"]
-REQUIRED = ["logins_started_by_auth_layer", "real_big_cases", "real_big_ok", "real_big:socket", "real_big:asyncore", "handshakes", "variant:XX", "variant:IK", "variant:XXfallback", "transport_reached", "frames_c2s", "frames_s2c",
+REQUIRED = ["unencodable_stanzas_sent", "logins_started_by_auth_layer", "real_big_cases", "real_big_ok", "real_big:socket", "real_big:asyncore", "handshakes", "variant:XX", "variant:IK", "variant:XXfallback", "transport_reached", "frames_c2s", "frames_s2c",
             "history:retry-after-cutoff", "history:corrupt-reply", "failure_reported", "key_persisted", "yields_injected",
             "glued_frames_cases", "completion_race_ok", "completion_race_released_mid_delivery", "completion_race_sweeps"]
 TIMEOUT = {"quick": 300, "thorough": 3600}
@@ -312,6 +312,18 @@ class Case(object):
         for i in range(d["traffic"]):
             if r.random() < 0.5:
                 st = stanza(r, "c%d" % i)
+                if r.random() < 0.15:
+                    # a stanza the wire format cannot carry (a character beyond Latin-1 in an attribute): either it is refused
+                    # (the sender gets an error, nothing goes out, the stream stays in step) or it arrives as it was sent
+                    st = (st[0], dict(st[1], name=r.choice(["\u0141ukasz", "\u4e2d\u6587", "a\U0001f600b"])), st[2], st[3])
+                    acc.count("unencodable_stanzas_sent")
+                    try:
+                        T.top.send(treeeq.to_node(st))
+                        c2s.append(st)
+                        acc.count("unencodable_stanza_went_out")
+                    except Exception:  # noqa
+                        acc.count("unencodable_stanza_refused")
+                    continue
                 c2s.append(st)
                 try:
                     T.top.send(treeeq.to_node(st))
